@@ -7,9 +7,11 @@ package main
 import (
 	"bufio"
 	"fmt"
+	"os"
 	"reflect"
 	"sort"
 	"strings"
+	"sync"
 
 	am "github.com/hashicorp/go-argmapper"
 )
@@ -339,7 +341,70 @@ var (
 	wHuge  = []int{1, 5, 1 << 30, 1<<31 - 1, 1 << 31, 1<<32 + 3}
 )
 
+// genDijConc: several goroutines search private graphs at the same time (every Call does, on the graph it built);
+// each compares what it gets with what the same search returned sequentially on the same graph.
+func genDijConc(w *bufio.Writer, r *rng, id int, maxN int) {
+	const workers = 8
+	type job struct {
+		g    *am.VerifGraph
+		src  int
+		want string
+	}
+	var jobs []job
+	for k := 0; k < workers; k++ {
+		d := randDigraph(r, maxN, wSmall, false)
+		g := d.build()
+		src := r.intn(d.n)
+		// every vertex hangs off the source: the distances of unreachable vertices (and of what only they lead to)
+		// depend on the order in which equal entries leave the queue, which is not what is compared here
+		for v := 0; v < d.n; v++ {
+			if v != src {
+				g.AddEdgeWeighted(hv{ID: src}, hv{ID: v}, 20)
+			}
+		}
+		// (distances are determined by the graph; predecessors may differ from run to run between equal-cost paths)
+		dist, _ := dijkstraCall(g, src)
+		jobs = append(jobs, job{g, src, kvInt(dist)})
+	}
+	verdict := "consistent"
+	var mu sync.Mutex
+	var wg sync.WaitGroup
+	before, _ := raceLogSize()
+	for k := range jobs {
+		wg.Add(1)
+		go func(j job) {
+			defer wg.Done()
+			for rep := 0; rep < 60; rep++ {
+				got := "panic"
+				func() {
+					defer func() { recover() }()
+					dist, _ := dijkstraCall(j.g, j.src)
+					got = kvInt(dist)
+				}()
+				if got != j.want {
+					mu.Lock()
+					verdict = "mismatch"
+					if os.Getenv("VERIF_DEBUG") != "" {
+						fmt.Fprintf(os.Stderr, "want %s\ngot  %s\n", j.want, got)
+					}
+					mu.Unlock()
+					return
+				}
+			}
+		}(jobs[k])
+	}
+	wg.Wait()
+	if after, file := raceLogSize(); after > before && verdict == "consistent" {
+		verdict = "data_race:" + tildeOnly(raceSummary(file, before))
+	}
+	fmt.Fprintf(w, "scn dijconc %d\nconc %s\nend\n", id, verdict)
+}
+
 func genDij(w *bufio.Writer, r *rng, id int, maxN int, palette string) {
+	if palette == "conc" {
+		genDijConc(w, r, id, maxN)
+		return
+	}
 	weights := wSmall
 	switch palette {
 	case "neg":
